@@ -3,13 +3,14 @@
 From LogV Require Export Base.Bytes.
 Open Scope nat_scope.
 
-Inductive cfg := CfgA | CfgB.    (* two valid configurations *)
+Inductive cfg := CfgA | CfgB | CfgW.    (* valid configurations; in CfgW the logger serving the tag is restricted to levels WARN and above *)
+Definition accepts (c : cfg) (hi : bool) : bool := match c with CfgW => hi | _ => true end.
 Inductive lop :=
 | ORefresh (c : cfg)        (* a valid configuration *)
 | ORefreshEarly             (* invalid: fails before the once-guard (e.g. no appenders section) *)
 | ORefreshLate              (* invalid: fails after plugins were started (e.g. a handle name is not configured) *)
 | ODestroy
-| OLog                      (* log through a registered tag at an enabled level *)
+| OLog (hi : bool)          (* log through a registered tag; hi = the level is WARN or above *)
 | OWrite                    (* write through a named handle *)
 | OWriteRoot                (* write through the handle named root, none of the configurations defines a root logger *)
 | ORegisterTag
@@ -20,6 +21,7 @@ Inductive lout :=
 | Done
 | ToConfig (c : cfg)        (* the event / bytes reached the sink of the live configuration *)
 | ToConsole                 (* ... the built-in console logger *)
+| Filtered                  (* dropped by the level range of the live configuration's logger *)
 | Registered | Refused.     (* registration succeeded / was refused (panic "log refresh already done") *)
 
 Record lstate := {
@@ -43,7 +45,7 @@ Definition lstep (s : lstate) (o : lop) : lstate * lout :=
   | ODestroy =>
       if l_init s then ({| l_init := false; l_tag := None; l_handle := None; l_running := None |}, Done)
       else (s, Done)
-  | OLog => (s, match l_tag s with Some c => ToConfig c | None => ToConsole end)
+  | OLog hi => (s, match l_tag s with Some c => if accepts c hi then ToConfig c else Filtered | None => ToConsole end)
   | OWrite => (s, match l_handle s with Some c => ToConfig c | None => ToConsole end)
   | OWriteRoot => (s, ToConsole)                   (* bound to the root logger = the built-in console logger, or unbound: console either way *)
   | ORegisterTag => (s, if l_init s then Refused else Registered)
